@@ -82,7 +82,8 @@ theorem clearWalk_spec (pv : Nat) : ∀ (t : Tree) (fuel : Nat) (m : TM) (a p : 
       · simp only [clearWalk]
         rw [gl1]
         simp [hr0, g1, heid]
-      · simp only [List.mem_append, List.mem_cons, not_or, heid] at hz
+      · rw [Cstl.Tree.ids_node] at hz
+        simp only [List.mem_append, List.mem_cons, not_or, heid] at hz
         exact ((gl2 z hz.1).trans (g2 z hz.2.2)).trans (poison_agree pv m3 hz.2.1)
 
 /-- `cstl_heap_clear` refines `Cstl.Heap.clear`: the traversal finishes, calls back exactly the
